@@ -39,7 +39,7 @@ FLOOR = {
     "cc:TorchTuckerLayer": 1, "cc:TorchCPTLayer": 1,
     "sr:sum-product": 1, "sr:lse-sum": 1, "sr:complex-lse-sum": 1,
     "B=1&F>1": 1, "B=F&F>1": 1, "multi-output": 1, "interior-output": 1, "shared-layer": 1,
-    "ids:>=8": 1, "values_compared": 1000, "complex-valuation": 1,
+    "ids:>=8": 1, "values_compared": 1000, "complex-valuation": 1, "lse-sum&exact-zeros": 1,
 }
 
 PRESETS = [
@@ -106,11 +106,13 @@ def run_case(case) -> Result:
     res.sig = struct_sig(sc) + ":" + sr
     res.nontrivial = any(True for _ in sc.inner_layers)
     domains = meta["domains"]
-    vclass_choices = ["init", "normal", "wide", "sparse"] if not cfg.monotonic else ["init", "posonly", "normal"]
+    vclass_choices = ["init", "normal", "wide", "sparse"] if not cfg.monotonic else ["init", "posonly", "normal", "zeros", "zeros"]
     vcls = rng.choice(vclass_choices)
     vseed = rng.getrandbits(32)
     if cfg.complex:
         res.features.add("complex-valuation")
+    if vcls == "zeros" and sr == "lse-sum":
+        res.features.add("lse-sum&exact-zeros")
 
     pool = gen.all_assignments(domains, limit=256)
     if pool is None:
